@@ -20,13 +20,45 @@ RULE = ('the real ActiveFabricSource with both delivery threads; 2-5 subscriber 
 ASSUMPTIONS = ['publications concurrent with a subscription may or may not reach it (0 or 1 delivery accepted)']
 PROBES = ['resubscription', 'equal_content_queues_same_signal']
 PLAN = {
-  'quick': {'strata': {'sub-pub': 5000}, 'wall_s': 300, 'chunk': 50, 'min_conclusive': 1000},
-  'thorough': {'strata': {'sub-pub': 150000}, 'wall_s': 900, 'chunk': 100, 'min_conclusive': 1000},
+  'quick': {'strata': {'sub-pub': 5000, 'stop-restart': 1500}, 'wall_s': 300, 'chunk': 50, 'min_conclusive': 1000},
+  'thorough': {'strata': {'sub-pub': 150000, 'stop-restart': 50000}, 'wall_s': 900, 'chunk': 100, 'min_conclusive': 1000},
 }
+
+
+def generate_restart(rng):
+  # the fabric is stopped and started again between (and right after) publications, with lagging or stalled delivery
+  # threads: what was published while it ran is owed exactly once, at the latest after the final start
+  nq = rng.randrange(1, 4)
+  queues = [{'kind': rng.choice(['deque', 'deque', 'locking']), 'prefill': 0} for _ in range(nq)]
+  sigs = ['SA', 'SB'][:rng.randrange(1, 3)]
+  c0 = [['start']]
+  for _ in range(rng.randrange(1, 5)):
+    c0.append(['subscribe', rng.randrange(nq), rng.choice(sigs), rng.choice(['fifo', 'lifo']), 'event'])
+  for _ in range(rng.randrange(4, 13)):
+    k = rng.choices(['publish', 'stop', 'start', 'sleep'], weights=[6, 2, 2, 1])[0]
+    if k == 'publish':
+      c0.append(['publish', rng.choice(sigs), rng.choice([None, None, 1, 5])])
+    elif k == 'sleep':
+      c0.append(['sleep', 0.01])
+    else:
+      c0.append([k])
+  c0 += [['start'], ['sleep', 0.05]]
+  clients = [c0]
+  if rng.random() < 0.3:
+    clients.append([['sleep', 0.001]] + [['publish', rng.choice(sigs), None] for _ in range(rng.randrange(1, 4))])
+  victims = [rng.choice(['fabric.fifo', 'fabric.lifo'])]
+  sc = {'queues': queues, 'clients': clients, 'signals': sigs, 'stratum': 'stop-restart',
+        'sched': common.draw_sched(rng, grans=('sync', 'line'), expected_steps=500, victims=victims)}
+  if rng.random() < 0.4:
+    sc['stalls'] = common.draw_stalls(rng, 400, rate=1.0, n=(1, 4), durations=(50000, 1500000, 5000000))
+    sc['stall_roles'] = ['fabric.fifo', 'fabric.lifo']
+  return sc
 
 
 def generate(seed, stratum, tier):
   rng = random.Random(seed)
+  if stratum == 'stop-restart':
+    return generate_restart(rng)
   big = common.deep(rng)
   nq = common.span(rng, 2, 6, big)
   prefill = rng.choice([0, 0, 1, 2])
@@ -147,6 +179,8 @@ def judge(sc, run, sim, reason, res):
       first_sub_end = min(s['end'] for s in run.subs if s['sig'] == p['sig'] and s['end'] is not None and s['q'] == qi and s['kind'] == kind)
       # one delivery is owed for every publish call of this event object that began after the subscription was made
       owed = sum(1 for b, e in p['calls'] if e is not None and b > first_sub_end)
+      if sc.get('stratum') == 'stop-restart' and not (p.get('running') and p.get('running_after')):
+        owed = 0      # published while the fabric was stopped (or being stopped/started): the statement asks nothing
       got = count.get((uid, qi, kind), 0)
       if got < owed:
         res.violate('not-delivered', {'kind': kind, 'republished': len(p['calls']) > 1},
